@@ -283,6 +283,10 @@ func (t *ImmutableTree) IterateRangeInclusive(start, end []byte, ascending bool,
 	}
 	return t.root.traverseInRange(t, start, end, ascending, true, false, func(node *Node) bool {
 		if node.subtreeHeight == 0 {
+			if node.nodeKey == nil {
+				// uncommitted leaf of a working tree: it will be saved with the next version
+				return fn(node.key, node.value, t.version+1)
+			}
 			return fn(node.key, node.value, node.nodeKey.version)
 		}
 		return false
